@@ -13,7 +13,7 @@ Set Warnings "-unused-intro-pattern".
 Section Items.
   Variable ct : ctable.
   Hypothesis Hflat : flat_table ct.
-  Hypothesis Hninv : no_inval_table ct.
+  Hypothesis Hninv : inval_spec ct.
   Notation Inv := (Inv ct).
   Notation rec := (exec ct XFUEL).
   Local Opaque exec XFUEL.
@@ -53,7 +53,7 @@ Section Items.
       + intros r h H. exact H.
       + intros h [I _]. exact I.
     - intros c'. apply T_pull. intros ->.
-      eapply T_pre; [|apply (mutate_attr_inplace ct Hflat Hninv rec l a (VRef fc) false)].
+      eapply T_pre; [|apply (mutate_attr_inplace ct Hflat Hninv XFUEL l a (VRef fc) false)].
       intros h [[I N] C]. split; auto. split.
       + right. exists cl, d. auto.
       + intros _ cl' d' k' sp' N' Hk' Ha'. unfold inst_at in N. rewrite N in N'. inversion N'; subst cl' d'.
@@ -92,7 +92,7 @@ Section Items.
     specialize (MC Pre).
     match type of MC with match ?X with _ => _ end => destruct X as [[c'|err] s2] end.
     - destruct MC as [[[I2 [N2 L2]] C2] ->].
-      apply (mutate_attr_inplace ct Hflat Hninv rec l a (VRef fc) false s2).
+      apply (mutate_attr_inplace ct Hflat Hninv XFUEL l a (VRef fc) false s2).
       split; auto. split; [left; exact L2|].
       intros _ cl' d' k' sp' N' Hk' Ha'. unfold inst_at in N2. rewrite N2 in N'. inversion N'; subst cl' d'.
       rewrite Hk in Hk'. inversion Hk'; subst k'. rewrite Ha in Ha'. inversion Ha'; subst sp'.
@@ -226,7 +226,7 @@ Theorem step_preserves_owned_partial3 ct roots o s :
 Proof.
   intros Hf Hn Hop T O. unfold owned_op3_b in Hop. apply orb_true_iff in Hop.
   destruct Hop as [Hop|Hop]; [now apply step_preserves_owned_partial|].
-  apply no_inval_b_sound in Hn.
+  apply no_inval_b_sound in Hn. apply no_inval_spec in Hn.
   assert (I : Inv ct (heap s)) by (split; auto).
   change (Inv ct (heap (snd (step ct roots o s)))).
   destruct o as [| | | x hp hh | |]; try discriminate. destruct hp; try discriminate.
